@@ -220,3 +220,29 @@ def run(R):
     # kind — get_local_transactions / register_validation answer only with the decoded local copy
     import props.C07 as _C07
     R.import_rules("C07", _C07.run, ["C07.tx.local", "C07.reg.merge", "C07.reg.merged", "C07.reg.store"], "C03.exists")
+    # "a quote issued for this address": the quoted-address test compares quote.content with address.as_xorname(), which must name the
+    # same bytes the address is stored / looked up under (as_bytes → record key) for every typed variant
+    ab = R.body("C03.addr-table", "ant_protocol::NetworkAddress::as_bytes")
+    ax = R.body("C03.addr-table", "ant_protocol::NetworkAddress::as_xorname")
+    if ab is not None and ax is not None:
+        NA = "ant_protocol::NetworkAddress"
+        ta_, _ = T.arm_targets(F, ab, NA, min_frac=0.5)
+        tx_, _ = T.arm_targets(F, ax, NA, min_frac=0.3)
+        okt = bool(ta_) and bool(tx_)
+        tab = {}
+        if okt:
+            ga, gx = cfg_of(ab), cfg_of(ax)
+            anycall = T.m_call_name(["*"])
+            xn = T.m_call_name(["*::xorname"])
+            for v in (T.variant_names(F, NA) or {}).values():
+                a = T.follow(ga, ta_[v][0], xn, limit=4) if v in ta_ else None
+                if not a:
+                    continue        # PeerId / raw RecordKey: no xorname form
+                x = T.follow(gx, tx_[v][0], anycall, limit=4) if v in tx_ else "missing"
+                tab[v] = (a, x)
+                if x != a:
+                    okt = False
+                    R.viol("C03.addr-table", "xorname-source:%s" % v, "NetworkAddress::%s: as_xorname answers %s but the address is keyed by %s: a quote for one address validates another" % (v, x, a), ax, ax.lines[0])
+        else:
+            R.viol("C03.addr-table", "table-missing", "cannot extract the per-variant tables of as_bytes / as_xorname", ax, ax.lines[0])
+        R.inst("C03.addr-table", "K7 table agreement", "as_xorname names the same bytes as as_bytes for every typed NetworkAddress variant", len(tab), okt and len(tab) >= 4, {"table": {k: list(v) for k, v in tab.items()}})
